@@ -163,12 +163,16 @@ def answer {ρ ε} (table : Res (List ρ)) (etable : Res (List ε)) (ri : Nat) (
       | some e => (obj [("n", ofNat es.length), ("first", ofList (obsOpt eobs e) accs)], true)
   obj [("model", model), ("spec", spec), ("hyp", Json.bool hyp)]
 
-def handle (req : Json) : Except String Json := do
-  let c ← field req "case"
+/-- a parsed table of a request: the model's table and what is needed to answer for it -/
+structure Parsed where
+  table : Table
+  ri : Nat
+  accs : List (Option Acc)
+
+def parseTable (c : Json) : Except String Parsed := do
   let kind ← str (← field c "kind")
   let base ← field c "base"
   let wrap ← str (← field base "wrap")
-  let stages ← listOf parseStage (← field c "stages")
   let ri ← nat (← field c "ri")
   let rows ← arr (← field c "rows")
   let miss ← listOf bool (← field c "miss")
@@ -185,7 +189,7 @@ def handle (req : Json) : Except String Json := do
       | "lazy" => pure (DBase.lazy vals loader enc hdr p.2)
       | "arff" => pure (DBase.arff (← listOf parseCol (← field base "cols")) vals p.2)
       | w => throw s!"wrap {w}")
-    pure (answer (tableD stages bases) (eagerTableD stages bases) ri accs obsD eagerObsD runD)
+    pure ⟨.dense bases, ri, accs⟩
   else
     let accs ← listOf (parseAcc false) (← field c "acc")
     let enc ← opt (listOf (pair parseKey parseEnc)) (fieldD base "enc" Json.null)
@@ -196,6 +200,35 @@ def handle (req : Json) : Except String Json := do
       | "lazy" => pure (SBase.lazy d loader (enc.getD []) hdr p.2)
       | "arff" => pure (SBase.arff (← listOf parseCol (← field base "cols")) d p.2)
       | w => throw s!"wrap {w}")
-    pure (answer (tableS stages bases) (eagerTableS stages bases) ri accs obsS eagerObsS runS)
+    pure ⟨.sparse bases, ri, accs⟩
+
+/-- the answer for one table from what `session` produced for it -/
+def answerOf (stages : List Stage) (p : Parsed) (out : TableOut) : Json :=
+  match p.table, out with
+  | .dense bases, .dense t =>
+    -- hypothesis of `first_row_irrelevant`: every row looks like the first one at every stage
+    (answer t (eagerTableD stages bases) p.ri p.accs obsD eagerObsD runD).setObjVal! "uniform" (Json.bool (uniformRun stages (bases.map baseD)))
+  | .sparse bases, .sparse t =>
+    -- hypotheses of the sparse theorems: no stage addresses a hidden raw key of a header-mapped base
+    let safe := bases.all (fun b => leakSafe (!(baseS b).leak.isEmpty) stages)
+    (answer t (eagerTableS stages bases) p.ri p.accs obsS eagerObsS runS).setObjVal! "leak_safe" (Json.bool safe)
+  | _, _ => obj [("model", obj [("pipe_err", ofNat 1)]), ("spec", Json.null), ("hyp", Json.bool false)]
+
+/-- request `{"case": table}` or `{"tables": [table…], "stages": […]}`: the tables go through `session`
+(one set of filter objects, one table after the other); one answer per table -/
+def handle (req : Json) : Except String Json := do
+  match req.getObjVal? "tables" with
+  | .ok ts =>
+    let stages ← listOf parseStage (← field req "stages")
+    let ps ← (← arr ts).mapM parseTable
+    let outs := session stages (ps.map (·.table))
+    pure (ofList id ((ps.zip outs).map (fun (q : Parsed × TableOut) => answerOf stages q.1 q.2)))
+  | .error _ =>
+    let c ← field req "case"
+    let stages ← listOf parseStage (← field c "stages")
+    let p ← parseTable c
+    match session stages [p.table] with
+    | [out] => pure (answerOf stages p out)
+    | _ => throw "session"
 
 end Coba.C13.Driver
